@@ -268,8 +268,9 @@ def cls {α : Type} : R α → Cls
   | .error .panic => .panic
   | .error _ => .err
 
-/-- a freshly mounted disk (`from_img`): `total_blocks = byte_capacity/512`, no bitmap buffer -/
-def fresh (r : Raw) : Disk := { raw := r, total := r.units.size, bitmap := none, bitmapBlocks := [] }
+/-- a freshly mounted disk (`from_img`): `total_blocks = byte_capacity/512`, no bitmap buffer; `src` = the variant
+bits of the concrete model (of the read paths only `bitmapCeil` matters: how many bitmap blocks `stat` opens) -/
+def fresh (r : Raw) (src : Repairs := {}) : Disk := { raw := r, total := r.units.size, bitmap := none, bitmapBlocks := [], src := src }
 
 /-- `buf[i]` on a `Vec<u8>`: out of range panics -/
 def byteAt (buf : Bytes) (i : Nat) : R Nat :=
@@ -475,14 +476,15 @@ def globV (d : Dpb) (r : Raw) : R Unit :=
     | .ok _ => .ok ()
 
 /-- the loop of `read_file` (334–379).  `fixed = false`: `panic!("unreachable: extents were not sorted")` =
-`Fs.Cpm.readLoop`; `fixed = true`: repair `c12fs-cpm-overlapping-extents` (`BadFormat`). -/
-def readLoopV (fixed : Bool) (d : Dpb) (r : Raw) (dir : Dir) (finfo : FileInfo) : List (Nat × Nat) → Nat → Nat → Got → R Got
+`Fs.Cpm.readLoop`; `fixed = true`: repair `c12fs-cpm-overlapping-extents` (`BadFormat`).  `absIdx` is the concrete model's own
+variant bit (`cpm-get-partial-extent`: how chunk numbers are counted; no influence on the outcome class). -/
+def readLoopV (fixed absIdx : Bool) (d : Dpb) (r : Raw) (dir : Dir) (finfo : FileInfo) : List (Nat × Nat) → Nat → Nat → Got → R Got
   | [], _, _, g => .ok g
   | (_, i) :: rest, bc, prev, g =>
     match dir[i]? with
     | none => .error .panic
     | some fx =>
-      if !isExtent fx then readLoopV fixed d r dir finfo rest bc prev g else
+      if !isExtent fx then readLoopV fixed absIdx d r dir finfo rest bc prev g else
       let created := match finfo.createTime with
         | some t => t
         | none => match finfo.accessTime with
@@ -497,13 +499,13 @@ def readLoopV (fixed : Bool) (d : Dpb) (r : Raw) (dir : Dir) (finfo : FileInfo) 
       if curr = prev then .error .badFormat else
       let lower := (curr - 1) / (d.exm + 1) * (d.exm + 1)
       if lower < prev then (if fixed then .error .badFormat else .error .panic) else
-      let bc1 := bc + (lower - prev) * logicalExtentSize / blockSize d
+      let bc1 := if absIdx then lower * logicalExtentSize / blockSize d else bc + (lower - prev) * logicalExtentSize / blockSize d
       match readPtrs d r (Ext.blockList d fx) bc1 g1.chunks with
       | .error e => .error e
-      | .ok (bc2, cs) => readLoopV fixed d r dir finfo rest bc2 curr { g1 with chunks := cs }
+      | .ok (bc2, cs) => readLoopV fixed absIdx d r dir finfo rest bc2 curr { g1 with chunks := cs }
 
 /-- `get(xname)` = `read_file` -/
-def getV (fixed : Bool) (d : Dpb) (r : Raw) (xname : Bytes) : R Got :=
+def getV (fixed : Bool) (d : Dpb) (r : Raw) (xname : Bytes) (absIdx : Bool := false) : R Got :=
   match getDirectory d r with
   | .error e => .error e
   | .ok dir =>
@@ -517,7 +519,7 @@ def getV (fixed : Bool) (d : Dpb) (r : Raw) (xname : Bytes) : R Got :=
         match stdAccessAndTyp xname with
         | .error e => .error e
         | .ok (access, fsType) =>
-          readLoopV fixed d r dir finfo finfo.entries 0 0
+          readLoopV fixed absIdx d r dir finfo finfo.entries 0 0
             { access := access, fsType := fsType, eof := 0, created := [], modified := [], chunks := [] }
 
 end Cpm
